@@ -14,6 +14,7 @@ import FendModel.Model.XRates
 import FendModel.Model.Cli
 import FendModel.Model.Dist
 import FendModel.Model.UnitLookup
+import FendModel.Model.Units
 
 open Fend Fend.Proto
 
@@ -393,6 +394,56 @@ def unitLookupLine (line : String) : String :=
       | .notFound => "notfound"
   | _ => "bad-op"
 
+def parseQ (s : String) : Option Rat :=
+  match s.splitOn "/" with
+  | [n] => n.toInt?.map fun i => (i : Rat)
+  | [n, d] => match n.toInt?, d.toNat? with
+    | some n, some d => if d = 0 then none else some ((n : Rat) / (d : Rat))
+    | _, _ => none
+  | _ => none
+
+/-- `b:e,b:e` (or `-` for dimensionless) -/
+def parseDims (s : String) : Option Fend.Units.Dims :=
+  if s = "-" then some [] else
+  (s.splitOn ",").mapM fun be => match be.splitOn ":" with
+    | [b, e] => match b.toNat?, parseQ e with
+      | some b, some e => some (b, e) | _, _ => none
+    | _ => none
+
+/-- `convert <x> <scaleA> <dimsA> <scaleB> <dimsB>` | `add <x> <scaleA> <dimsA> <y> <scaleB> <dimsB>`
+ | `dims mul|div <dimsA> <dimsB>` | `dims pow <dimsA> <q>`; base ids 0..39 are compared -/
+def unitsLine (line : String) : String :=
+  let bases := List.range 40
+  let showDims (d : Fend.Units.Dims) : String :=
+    let es := bases.filterMap fun b => let e := Fend.Units.expOf b d; if e = 0 then none else some s!"{b}:{showRatQ e}"
+    if es.isEmpty then "-" else ",".intercalate es
+  match line.trimAscii.toString.splitOn " " with
+  | ["convert", x, sa, da, sb, db] =>
+    match parseQ x, parseQ sa, parseDims da, parseQ sb, parseDims db with
+    | some x, some sa, some da, some sb, some db =>
+      match Fend.Units.convert bases x ⟨da, sa⟩ ⟨db, sb⟩ with
+      | some r => "ok " ++ showRatQ r
+      | none => "incompatible"
+    | _, _, _, _, _ => "bad-op"
+  | ["add", x, sa, da, y, sb, db] =>
+    match parseQ x, parseQ sa, parseDims da, parseQ y, parseQ sb, parseDims db with
+    | some x, some sa, some da, some y, some sb, some db =>
+      match Fend.Units.addIn bases x ⟨da, sa⟩ y ⟨db, sb⟩ with
+      | some r => "ok " ++ showRatQ r
+      | none => "incompatible"
+    | _, _, _, _, _, _ => "bad-op"
+  | ["dims", op, da, db] =>
+    match parseDims da with
+    | none => "bad-op"
+    | some da =>
+      if op = "pow" then match parseQ db with
+        | some q => "ok " ++ showDims (Fend.Units.reduce (Fend.Units.powDims da q)).1
+        | none => "bad-op"
+      else match parseDims db with
+        | some db => "ok " ++ showDims (Fend.Units.reduce (if op = "mul" then Fend.Units.mulDims da db else Fend.Units.divDims da db)).1
+        | none => "bad-op"
+  | _ => "bad-op"
+
 partial def loop (h : IO.FS.Stream) (out : IO.FS.Stream) (f : String → String) : IO Unit := do
   let line ← h.getLine
   if line.isEmpty then return ()
@@ -417,5 +468,6 @@ def main (args : List String) : IO UInt32 := do
   | ["cliargs"] => loop stdin stdout cliargsLine; return 0
   | ["dist"] => loop stdin stdout distLine; return 0
   | ["unitlookup"] => loop stdin stdout unitLookupLine; return 0
+  | ["units"] => loop stdin stdout unitsLine; return 0
   | ["clirun"] => loop stdin stdout clirunLine; return 0
   | _ => IO.eprintln "usage: fend_model_driver <stream>"; return 2
